@@ -148,7 +148,7 @@ def _get_singularity(expr, V, U_offset, exp_function):
     P_wildcard = Wild('P_wildcard', real=True, exclude=[V])
     Z_wildcard = Wild('Z_wildcard', real=True)
     U_wildcard = Wild('U_wildcard', real=True, include=[V])
-    SP_wildcard = Wild('SP_wildcard', real=True)
+    SP_wildcard = Wild('SP_wildcard', real=True, exclude=[V])
     singularities = []
 
     def check_U_match(m, sp):
@@ -158,7 +158,7 @@ def _get_singularity(expr, V, U_offset, exp_function):
         :param sp: The singularity point found.
         :return: (Vmin, Vmax, sp)
         """
-        assert m is None or m[Z_wildcard] != 0
+        assert m is None or m[P_wildcard] != 0
         return m is not None and \
             (sp == m[SP_wildcard] or
              (isinstance(sp, (Float, float)) and
@@ -220,11 +220,11 @@ def _get_singularity(expr, V, U_offset, exp_function):
                         match = fp1.match(P_wildcard * u)  # search for multiple of U
                         found_on_top = match is not None and P_wildcard in match and match[P_wildcard] != 0
                         if not found_on_top:
-                            match = fp1.match(Z_wildcard * V - Z_wildcard * SP_wildcard)  # look for multiple of V - sp
+                            match = fp1.match(P_wildcard * V - P_wildcard * SP_wildcard)  # look for multiple of V - sp
                             found_on_top = check_U_match(match, sp)
                             if not found_on_top:
                                 # search for a exp(multiple of V - sp)
-                                match = fp1.match(exp_function(Z_wildcard * V - Z_wildcard * SP_wildcard))
+                                match = fp1.match(exp_function(P_wildcard * V - P_wildcard * SP_wildcard))
                                 found_on_top = check_U_match(match, sp)
                         if found_on_top:  # We've found a match stop looking in the other numerator arguments
                             break
